@@ -13,6 +13,7 @@
     the TDH it is compared against is exactly the latest earlier TDH with the internal-trigger
     bit, for every TDH sequence (continuation TDHs included).
 -/
+import FastPasta.Proofs.CustomSrcTie
 import FastPasta.Model.Collector
 import FastPasta.Proofs.StateSrcTie
 import FastPasta.Proofs.LaneSrcTie
@@ -183,6 +184,18 @@ theorem chip_checks_src (cfg : AlpideCfg) (barrel : Barrel) (laneNumber : Nat) (
     (countBad cfg barrel d = false →
       (SrcLane.LaneAlpideFrameAnalyzer.check_chip_id_order (SrcTie.analyzerOf cfg barrel laneNumber d)).isErr = orderBad cfg barrel laneNumber d) :=
   ⟨SrcTie.chip_count_eq cfg barrel laneNumber d, SrcTie.chip_order_eq cfg barrel laneNumber d⟩
+
+
+/-! ### tie by translation: the statistics-level custom checks are the source's `validate_custom_stats`
+    (stats/stats_validation.rs → `Spec/CustomSrcGen.lean`, translated on this run) -/
+/-- for every configuration of the two keys and every collector state: the source's error list carries `[E9001]` / `[E9002]` exactly as
+    `customStatErrors` does (`cdps_iff`, `pht_iff`, `absent_is_silent` are thereby statements about the source function), and it returns
+    `Err` exactly when that list is not empty -/
+theorem custom_stats_src (a : SrcCustom.CustomAbs) (r : SrcCustom.RdhStats) (c : Coll)
+    (h1 : r.f_rdhs_seen = c.rdhsSeen) (h2 : r.f_trigger_stats.f_pht = c.trig 4) :
+    (SrcCustom.validate_custom_stats a r).errStr.codes.map SrcTie.custCode = customStatErrors a.cdps a.triggersPht c ∧
+    ((SrcCustom.validate_custom_stats a r).isErr = !(customStatErrors a.cdps a.triggersPht c).isEmpty) :=
+  SrcTie.validate_custom_eq a r c h1 h2
 
 end C20
 end FastPasta
